@@ -45,7 +45,7 @@ def run(ctx):
     quick = ctx.tier == "quick"
     nr = numpy.random.RandomState(ctx.seed * 19 + 7)
     # ---- ACSE residual, wavefunction route ---------------------------------------------------------
-    for case in range(3 if quick else 20):
+    for case in range(6 if quick else 30):
         norb = 2
         h1 = C01.rand_tensor(rng, norb, 1, 1.0, False)
         h1 = h1 + h1.T
@@ -53,10 +53,17 @@ def run(ctx):
         ham = fqe.get_restricted_hamiltonian((h1, h2))
         hterms = U.restricted_terms([h1, h2], norb)
         n, sz = rng.choice([(2, 0), (3, 1), (3, -1), (2, 0)])
-        w = fqe.Wavefunction([[n, sz, norb]])
+        if case % 3 == 2:
+            # several sectors, a sparsely filled one declared first
+            first = rng.choice([(1, 1), (1, -1), (2, 0)])
+            others = [x for x in [(3, 1), (3, -1), (4, 0), (2, 2), (2, -2)] if x != first]
+            secs = [first] + rng.sample(others, rng.randint(1, 2))
+            w = fqe.Wavefunction([[a_, b_, norb] for a_, b_ in secs])
+        else:
+            w = fqe.Wavefunction([[n, sz, norb]])
         U.random_fill(w, rng, zero_p=0.0)
         ents = U.wfn_entries(w)
-        desc = {"norb": norb, "sector": [n, sz], "case": case}
+        desc = {"norb": norb, "sector": sorted(w.sectors()), "case": case}
         try:
             res = bc.get_acse_residual_fqe(w, ham, norb)
         except Exception as exc:
@@ -162,6 +169,49 @@ def run(ctx):
                                      f"{bad1} elements of one_rdo_commutator_symm differ from <[p^ q, A]>, e.g. {worst1}", desc)
                 except Exception as exc:
                     ctx.disagree(f"rdo-commutator-raises:one_rdo_commutator_symm:{type(exc).__name__}", str(exc)[:300], desc)
+    # ---- ACSE residual of multi-sector wavefunctions on three orbitals (same-spin blocks are non-trivial only from
+    #      three orbitals on): the same-spin elements and a random sample of the others -------------------------------
+    for case in range(2 if quick else 12):
+        norb = 3
+        nso = 6
+        h1 = C01.rand_tensor(rng, norb, 1, 0.6, False)
+        h1 = h1 + h1.T
+        h2 = C01.symmetrize8(C01.rand_tensor(rng, norb, 2, 0.06, False))
+        ham = fqe.get_restricted_hamiltonian((h1, h2))
+        hterms = U.restricted_terms([h1, h2], norb)
+        first = rng.choice([(2, 0), (1, 1), (1, -1)])
+        others = [(4, 0), (3, 1), (3, -1), (2, 2), (2, -2)]
+        secs = ([first] + rng.sample(others, rng.randint(1, 2))) if case % 2 == 0 else (rng.sample(others, 2) + [first])
+        w = fqe.Wavefunction([[a_, b_, norb] for a_, b_ in secs])
+        U.random_fill(w, rng, zero_p=0.3)
+        ents = U.wfn_entries(w)
+        desc = {"norb": norb, "sectors_in_declared_order": [list(x) for x in secs], "case": case}
+        try:
+            res = bc.get_acse_residual_fqe(w, ham, norb)
+        except Exception as exc:
+            ctx.disagree(f"acse-raises:multi-sector:{type(exc).__name__}", str(exc)[:300], desc)
+            continue
+        elems = [(p, q, r, s) for p, q, r, s in itertools.product(range(nso), repeat=4)
+                 if p % 2 == q % 2 == r % 2 == s % 2 and p != q and r != s]
+        # (Sz-changing elements couple different Sz sectors, which a spin-conserving wavefunction object does not do:
+        #  domain restriction, DESIGN 0.5 — only Sz-conserving elements are sampled)
+        mixed = [(p, q, r, s) for p, q, r, s in itertools.product(range(nso), repeat=4)
+                 if p % 2 + q % 2 == r % 2 + s % 2 and not (p % 2 == q % 2 == r % 2 == s % 2)]
+        elems = rng.sample(elems, 40) + rng.sample(mixed, 40)
+        bad, worst = 0, None
+        for p, q, r, s in elems:
+            T = [(p, 1), (q, 1), (r, 0), (s, 0)]
+            terms = [(c, T + t) for c, t in hterms] + [(-c, t + T) for c, t in hterms]
+            e = parse_c(d.ask(f"expect {norb} {fmt_vec(ents)} {fmt_vec(ents)} {fmt_op(terms)}"))
+            ex = complex(float(e[0]), float(e[1]))
+            ctx.case(("acse-multi", case, p, q, r, s) if ex != 0 else None)
+            if abs(res[p, q, r, s] - ex) > 1e-8 * max(1.0, abs(ex)):
+                bad += 1
+                worst = worst or ((p, q, r, s), complex(res[p, q, r, s]), ex)
+        ctx.count("acse-tensors:multi-sector")
+        if bad:
+            ctx.disagree("acse:wavefunction-route:multi-sector", f"{bad} of {len(elems)} sampled elements differ from <[p^ q^ r s, H]>, "
+                         f"e.g. {worst}", desc)
     # ---- generalised doubles factorisation --------------------------------------------------------
     fams = ["real", "complex", "spinfree-itV", "acse-complex"]
     # regression corpus: degenerate generators with singular values 10-60 on which the Takagi route failed before
